@@ -75,20 +75,48 @@ class GenDomain(OpsDomain):
             return {"<": o < 0, "<=": o <= 0, ">": o > 0, ">=": o >= 0, "==": o == 0, "!=": o != 0}[op]
         return OpsDomain.abs_binop(self, op, a, b, e, fr)
 
+    def iter_range(self, first, last, e):
+        """the values in [first, last): a pair of vector iterators or of std::set iterators"""
+        from .conc import PtrInto
+        if isinstance(first, PtrInto) and isinstance(last, PtrInto) and first.arr is last.arr:
+            if not (0 <= first.off <= last.off <= (first.arr.length or 0)):
+                from . import conc
+                o = ("%s (iterator range)" % first.arr.name, "%s..%s" % (first.off, last.off), first.arr.length, ir.locstr(e))
+                self.oob.append(o)
+                conc.GLOBAL_OOB.append(o)
+            return [self.elem_class()(first.arr, i, self, ir.locstr(e)).get() for i in range(first.off, last.off)]
+        if isinstance(first, SetIter) and isinstance(last, SetIter) and first.s is last.s and first.s is not None:
+            return list(first.s.items[first.pos:last.pos])
+        raise AnalysisBroken("iterator range (%r, %r) not modelled at %s" % (first, last, ir.locstr(e)))
+
     def call(self, e, fr):
         it = self.interp
         k = e["k"]
+        if k == "Call" and strip_targs(e.get("callee") or "") == "std::copy" and len(e["args"]) == 3:
+            from .conc import PtrInto
+            a_, b_, c_ = (it.rvalue(x_, fr) for x_ in e["args"])
+            if isinstance(a_, SetIter) and isinstance(c_, PtrInto):
+                xs = self.iter_range(a_, b_, e)                        # std::copy(s.begin(), s.end(), out)
+                for i, x_ in enumerate(xs):
+                    self.index(c_.arr, c_.off + i, e, fr).set(x_)
+                return PtrInto(c_.arr, c_.off + len(xs))
         callee = e.get("callee") or e.get("ctor") or ""
         base = strip_targs(callee)
         m = base.rsplit("::", 1)[-1]
         args = e["args"]
         t = (e.get("t") or "").replace("const ", "")
         if k == "Construct" and t.startswith("std::set<double") and "iterator" not in t:
-            if args:
-                v = it.rvalue(args[0], fr)
-                if isinstance(v, SetObj):
-                    return SetObj(v.items)
-            return SetObj()
+            if not args:
+                return SetObj()
+            vals_ = [it.rvalue(a_, fr) for a_ in args]
+            if len(vals_) == 1 and isinstance(vals_[0], SetObj):
+                return SetObj(vals_[0].items)
+            if len(vals_) == 2:
+                so = SetObj()
+                for x_ in self.iter_range(vals_[0], vals_[1], e):      # std::set<double> s(first, last)
+                    so.insert(x_)
+                return so
+            raise AnalysisBroken("std::set constructor with %d arguments not modelled at %s" % (len(args), ir.locstr(e)))
         if k == "Construct" and (e.get("ctor") or "").startswith("std::_Rb_tree_const_iterator<double>"):
             if args:
                 v = it.rvalue(args[0], fr)
@@ -219,6 +247,11 @@ class GenDomain(OpsDomain):
             if isinstance(th, SetObj):
                 if m == "insert" and len(args) == 1:
                     th.insert(it.rvalue(args[0], fr))
+                    return None
+                if m == "insert" and len(args) == 2:
+                    a_, b_ = it.rvalue(args[0], fr), it.rvalue(args[1], fr)
+                    for x_ in self.iter_range(a_, b_, e):              # s.insert(first, last)
+                        th.insert(x_)
                     return None
                 if m == "size":
                     return len(th.items)
